@@ -1,0 +1,6 @@
+//go:build verif
+
+package catalog
+
+// Verification hook (build tag "verif"): export of decToMinDec for an external harness.
+func VerifDecToMinDec(dec float64, latitude bool) string { return decToMinDec(dec, latitude) }
